@@ -30,9 +30,9 @@ from . import c06 as c06e
 from .. import common
 from ..schedlib import model_request, run_impl
 
-MODULES = ["Sched", "SchedLemmas", "Connect", "ConnectLemmas", "Output", "OutputLemmas", "Props.C02", "Props.C05Run"]
+MODULES = ["Sched", "SchedLemmas", "Connect", "ConnectLemmas", "Output", "OutputLemmas", "Props.C02", "Props.C05Run", "Props.C05Values"]
 GEN_OBLIGATIONS = sc.GEN_OBLIGATIONS
-THEOREM_DEPS = ["C05Run"]
+THEOREM_DEPS = ["C05Run", "C05Values"]
 
 SIG_DOWHILE = "end-not-after-start-tie"
 KINDS = ["scale", "lin", "step", "next", "prev", "avg", "sum", "dfix", "dpull"]  # no push-time-dependent adapter
